@@ -297,7 +297,7 @@ static void c_compare_vectors()
     Vec v = make_filled(m, 2, 3);
     g_next_id = 1;
     Vec w = make_filled(m2, 2, 4);
-    constexpr bool IDENTITY_COMPARED = !Cfg::ALL_COPYABLE && !Cfg::HAS_TRACKED;  // std::unique_ptr fields compare by address
+    constexpr bool IDENTITY_COMPARED = Cfg::HAS_UNIQUE_PTR;  // std::unique_ptr fields compare by address
     require(v == v && !(v != v) && !(v < v) && v <= v && v >= v && !(v > v), "vector compared with itself");
     if constexpr (IDENTITY_COMPARED) return;
     require(v == w && !(v != w), "vector == vector with equal content");
